@@ -19,7 +19,7 @@ type Op struct {
 
 var OpKinds = []string{"remove-member", "swap-members", "rename-field", "add-field", "remove-message", "add-message",
 	"toggle-required", "change-field-type", "change-type-mapping", "add-enum-values", "add-group", "add-component",
-	"remove-component", "duplicate-field-number", "duplicate-msgtype", "reorder-messages", "add-nested-groups", "move-framing-field", "same-group-in-components"}
+	"remove-component", "duplicate-field-number", "duplicate-msgtype", "reorder-messages", "add-nested-groups", "move-framing-field", "same-group-in-components", "change-version"}
 
 // names the generator or the library's interfaces rely on
 var protectedFields = map[string]bool{
@@ -316,6 +316,11 @@ func Apply(base *schema.Schema, baseTM *schema.TypeMap, ops []Op) (s *schema.Sch
 			pos := op.B % (len(*h.members) + 1)
 			*h.members = append((*h.members)[:pos:pos], append([]*schema.Member{g}, (*h.members)[pos:]...)...)
 			note("add %d directly nested groups (%s ...) to %s at %d", depth, g.Name, h.label, pos)
+		case "change-version":
+			// another protocol version: major and minor differ from each other
+			v := [][2]string{{"4", "2"}, {"5", "0"}, {"4", "3"}, {"4", "0"}, {"1", "1"}, {"10", "2"}}[op.A%6]
+			s.Major, s.Minor = v[0], v[1]
+			note("schema version %s.%s", s.Major, s.Minor)
 		case "same-group-in-components":
 			// 2-4 new components that each declare a repeating group of the SAME name with
 			// different members (what the big shipped schema does in its messages): which
